@@ -142,6 +142,23 @@ def main():
             summ[os.path.relpath(f["filename"], "/repo")] = {"lines": s["lines"]["count"], "lines_covered": s["lines"]["covered"], "functions": s["functions"]["count"], "functions_covered": s["functions"]["covered"]}
     tot = {k: sum(v[k] for v in summ.values()) for k in ("lines", "lines_covered", "functions", "functions_covered")}
     json.dump({"cases_per_property": CASES, "properties": list(bins), "total": tot, "files": summ}, open(os.path.join(OUTD, "summary.json"), "w"), indent=1)
+    # never-executed lines of the source files (send / interface / routing code is listed too: it is simply outside every property)
+    show = subprocess.run(["llvm-cov", "show", "-instr-profile", T + "/all.profdata"] + objargs + ["-ignore-filename-regex", "^(?!/repo/src/).*"],
+                          stdout=subprocess.PIPE, stderr=subprocess.DEVNULL, text=True).stdout
+    cur, unc = None, {}
+    for line in show.split("\n"):
+        if line.startswith("/repo/src/") and line.rstrip().endswith(":"):
+            cur = os.path.relpath(line.rstrip()[:-1], "/repo")
+            continue
+        m = re.match(r"^\s*(\d+)\|\s*0\|(.*)$", line)
+        if m and cur:
+            unc.setdefault(cur, []).append((int(m.group(1)), m.group(2).rstrip()))
+    with open(os.path.join(OUTD, "unexecuted_lines.txt"), "w") as o:
+        o.write("# source lines of /repo/src with execution count 0 under the generators (quick-sized run); generated by coverage.py\n")
+        for f in sorted(unc):
+            o.write("\n%s\n" % f)
+            for n, t in unc[f]:
+                o.write("%6d| %s\n" % (n, t[:160]))
     print("total", tot, "unexecuted functions:", sum(len(set(v)) for v in byfile.values()))
     shutil.rmtree(T, ignore_errors=True)
     return 0
